@@ -733,6 +733,32 @@ pub fn main(args: &Args) -> ! {
         "datagrams dropped by drop_oversized after a black hole are allowed by the property (datagrams may be dropped); datagrams that stay queued forever and block the ones behind them are not".into(),
     ];
     let _ = BTreeMap::<u8, u8>::new();
+    // the quinn crate's side: `send_datagram_wait` blocks while the send buffer is full and is woken
+    // when room appears - also a sender that is woken and finds the room taken again by another task.
+    // Explored under the deterministic executor of harness-async (scenario S5) and merged here.
+    match std::env::var("VERIF_VA_BIN") {
+        Err(_) => machinery("VERIF_VA_BIN not set: ./check C16 builds harness-async and passes its path"),
+        Ok(bin) => {
+            let out = std::process::Command::new(&bin).arg("c16").arg("--tier").arg(if thorough { "thorough" } else { "quick" }).output();
+            let out = out.unwrap_or_else(|e| machinery(&format!("cannot run {bin}: {e}")));
+            let text = String::from_utf8_lossy(&out.stdout);
+            let v: serde_json::Value = text.lines().rev().find_map(|l| serde_json::from_str(l).ok()).unwrap_or_else(|| machinery(&format!("no result from {bin} c16: {}", String::from_utf8_lossy(&out.stderr))));
+            let n = v["executions"].as_u64().unwrap_or(0);
+            if n == 0 || v["blocked_waits_baseline"].as_u64().unwrap_or(0) < 2 {
+                machinery("vacuity guard: the async datagram part explored nothing, or fewer than two send_datagram_wait calls ever blocked");
+            }
+            rep.evaluations += n;
+            rep.exhaustive &= !v["capped"].as_bool().unwrap_or(true);
+            for viol in v["violations"].as_array().cloned().unwrap_or_default() {
+                rep.violation(Violation {
+                    signature: format!("async:{}", viol["signature"].as_str().unwrap_or("?")),
+                    what: format!("quinn crate under the deterministic executor (three tasks, send buffer for one datagram): {}", viol["what"].as_str().unwrap_or("?")),
+                    replay: json!({"check":"c18","async_replay": viol["replay"], "note": "replay with ./check C18 --replay on a file holding {\"replay\": <async_replay>}"}),
+                });
+            }
+            rep.part("async_send_datagram_wait", v);
+        }
+    }
     rep.finish()
 }
 
